@@ -277,6 +277,26 @@ def h_lik(B, kind, shape, model="none"):
         B.eq("normalized_residual == std_inv (d - p)", _flat(nres), _flat(hp.get("s", 1) * (hp["d"] - p)))
 
 
+def h_vcg_complex(B, n):
+    """VariableCovarianceGaussian with COMPLEX data: metric == L R (up to the rounded sqrt(2) constants), L and R adjoint,
+    metric == documented Fisher information (mean block std_inv^2, std_inv block 4 / std_inv^2)"""
+    d = B.complexes("d", (n,))
+    p0, p1 = B.complexes("p0", (n,)), B.reals("p1", (n,))
+    t0, t1 = B.complexes("t0", (n,)), B.reals("t1", (n,))
+    c0, c1 = B.complexes("c0", (n,)), B.reals("c1", (n,))
+    B.assume_all([v > 0 for v in p1])
+
+    def with_lh(f):
+        def g(d, *a):
+            return f(jft().VariableCovarianceGaussian(d), *a)
+        return g
+    met = jcall(B, with_lh(lambda lh, p, t: lh.metric(p, t)), d, (p0, p1), (t0, t1))
+    lr = jcall(B, with_lh(lambda lh, p, t: lh.left_sqrt_metric(p, lh.right_sqrt_metric(p, t))), d, (p0, p1), (t0, t1))
+    B.close_under("complex data: metric(p,t) == left_sqrt_metric(p, right_sqrt_metric(p,t))", _flat(lr), _flat(met))
+    B.eq("complex data: metric == Fisher information (std_inv^2 t_mean, 4 t_std / std_inv^2)", _flat(met),
+         list(p1 * p1 * t0) + list(4 * t1 / (p1 * p1)))
+
+
 def h_amend(B, kind, fwd):
     """likelihood.amend(forward model): chain rule for energy / metric / sqrt-metric"""
     shape = (N,)
@@ -412,10 +432,11 @@ def scenarios(tier, seed):
             out.append(("amend", {"kind": kind, "fwd": fwd}))
     out.append(("sum", {}))
     out.append(("freeze", {}))
+    out.append(("vcg_complex", {"n": 1}))
     return out
 
 
-HARNESSES = {"lik": h_lik, "amend": h_amend, "sum": h_sum, "freeze": h_freeze, "validate": h_validate}
+HARNESSES = {"vcg_complex": h_vcg_complex, "lik": h_lik, "amend": h_amend, "sum": h_sum, "freeze": h_freeze, "validate": h_validate}
 OPTS = {"quick": {"max_paths": 32, "budget_s": 300}, "thorough": {"max_paths": 32, "budget_s": 1200}}
 
 META = {
